@@ -21,6 +21,7 @@ type relOpts struct {
 	stats    bool
 	nTargets int
 	self     bool // allow an entity to be its own relation target
+	newest   bool // the newest alive entity is a possible target, too (it may carry a recycled id)
 }
 
 // relFilters are the persistent filters used by the relation scenarios.
@@ -44,6 +45,15 @@ func relAlphabet(o relOpts) func(m *model.Model) []model.Op {
 	return func(m *model.Model) []model.Op {
 		var ops []model.Op
 		tg := targets(m, o.nTargets)
+		if al := m.Alive(); o.newest && len(al) > 0 {
+			last, have := al[len(al)-1], false
+			for _, t := range tg {
+				have = have || t == last
+			}
+			if !have && m.Ents[last].Comps == ct.Of(ct.P) {
+				tg = append(tg, last)
+			}
+		}
 		canNew := limitAlive(m, o.maxAlive)
 		if canNew {
 			ops = append(ops, model.Op{K: model.OpNew, Path: o.path, Cs: ct.Of(ct.P)})
@@ -88,6 +98,12 @@ func relAlphabet(o relOpts) func(m *model.Model) []model.Op {
 		if o.batch {
 			ops = append(ops, model.Op{K: model.OpRemoveEntities, F: 0, Fn: true})
 			ops = append(ops, model.Op{K: model.OpRemoveEntities, F: 1})
+			// through the filter with a fixed target (#0), also when that handle is stale and its id re-used
+			ops = append(ops, model.Op{K: model.OpRemoveEntities, F: 2})
+			if canNew {
+				// batch creation: recycled ids land in rows of an existing table
+				ops = append(ops, model.Op{K: model.OpNewBatch, Path: model.PathMapN, Cs: ct.Of(ct.P), N: 2})
+			}
 			for _, t := range tg {
 				if t >= 0 {
 					ops = append(ops, model.Op{K: model.OpRemoveEntities, F: 0, QT: rel(ct.R1, t)})
@@ -161,8 +177,10 @@ func init() {
 				Filters:  relFilters(),
 				Slots:    1,
 				Oracle:   drv.Oracle{World: true, Typed: true, Family: relFamily(), Filters: true, Lock: true},
-				Preludes: relPreludes(path),
-				Alphabet: relAlphabet(relOpts{path: path, maxAlive: 5, shrink: true, reset: true, batch: true, two: true, nTargets: 2}),
+				// the last prelude creates the filter object with the fixed target #0 while #0 is alive (the handle
+				// inside the filter goes stale when #0 dies and its id is re-used)
+				Preludes: append(relPreludes(path), append(append([]model.Op{}, relPreludes(path)[2]...), model.Op{K: model.OpTouch, F: 2})),
+				Alphabet: relAlphabet(relOpts{path: path, maxAlive: 5, shrink: true, reset: true, batch: true, two: true, nTargets: 2, newest: path == model.PathUnsafe}),
 				Depth:    depth,
 			})
 		}
@@ -180,7 +198,7 @@ func init() {
 		// 36 targets / child tables: batch operations over more than 32 tables
 		scs = append(scs, scaleTargets(depth-1, drv.Oracle{World: true, Typed: true, Filters: true, Lock: true, Stats: true})...)
 		chk := &Check{ID: "C04", Scenarios: scs,
-			Rule: "all histories over the relation alphabet (create child/target, set/add/remove relation, remove entity, batch removal by filter and target, batch retarget, Shrink, Reset) from 6 preludes; distinct = distinct model states; non-trivial = at least one alive entity holds a relation"}
+			Rule: "all histories over the relation alphabet (create child/target, set/add/remove relation, remove entity, batch removal by filter and target, batch retarget, Shrink, Reset) from 7 preludes (one of which creates the fixed-target filter object early); distinct = distinct model states; non-trivial = at least one alive entity holds a relation"}
 		addThreshold(chk, "wide-entities", wideSweep, "threshold sweep: entities with r in {1,2,7,8,9,10} relation components and w in {0,...,15,16,17,18,31,32,33,40} other components (types synthesised by reflection): targets set, changed, dying singly and in a batch, plain components removed; expectation after every step")
 		addThreshold(chk, "many-targets", manyTargetsSweep, "n in {2,...,255,256,257,258} targets removed by one RemoveEntities call, children reset to the zero target")
 		return chk
